@@ -157,6 +157,18 @@ def rule_shared_state(ctx):
                             written = True
             if written or (isinstance(v, ast.Call) and norm(v.func).endswith("FakeSnow")):
                 found.append((mname, k))
+    # module-level instances of classes that keep per-call state on the instance (sqlglot's Parser / Tokenizer / Generator keep
+    # their token list, position and messages in attributes; a DuckDB connection keeps its result set): one such object shared
+    # by every session and thread is torn by concurrent use
+    STATEFUL = ("parser", "tokenizer", "generator", "connect", "cursor")
+    for mname, m in prog.modules.items():
+        for k, v in m.consts.items():
+            if isinstance(v, ast.Call):
+                callee = norm(v.func).split(".")[-1].lower()
+                if callee in STATEFUL or callee.endswith(("parser", "tokenizer", "generator")):
+                    used = any(isinstance(n, ast.Name) and n.id == k for mm in prog.modules.values() for f in mm.functions.values() for n in ast.walk(f))
+                    if used and (mname, k) not in found:
+                        found.append((mname, k))
     extra = [f for f in found if f not in allowed]
     ctx.ob("C19.c", f"module-level mutable state is exactly {sorted(allowed)}", not extra, "fakesnow", str(found))
     for mname, k in extra:
